@@ -53,6 +53,18 @@ func skeletons(tier string, rng *rand.Rand) []string {
 	for _, e := range []string{"$.ああ", "$['é']", "$.ああ[", "$[?(@.é == 'ü')]", "$.a\xff", "$['\xc3']", "$.k\U0010ffff", "$['\U0010ffff']", "$.\U0010fffe.a", "$['\\u001f']", "$[\"\\uffef\"]", "$.テスト x", "$[?(@.a != @.b)]", "$[?((@.a == 1 ) && @.b)]"} {
 		addAny(e)
 	}
+	// deeply nested filters (parse time must stay bounded)
+	for _, depth := range []int{6, 10, 14, 18} {
+		s := "@.a"
+		for i := 0; i < depth; i++ {
+			s = "@.a[?(" + s + ")]"
+		}
+		nested := "$[?(" + s + ")]"
+		if !seen[nested] {
+			seen[nested] = true
+			out = append(out, nested)
+		}
+	}
 	if cases, err := extractSuiteCases(repoDir()); err == nil {
 		for _, c := range cases {
 			addAny(c.Path)
